@@ -12,6 +12,8 @@ back through the binding, unknown bytes are junk.
 import LndModel.Prelude.Lines
 import LndModel.C11.Model
 import LndModel.C11.ConnModel
+import LndModel.C11.Pool
+import LndModel.C11.Listener
 
 open LndModel LndModel.Lines LndModel.C11
 
@@ -129,6 +131,17 @@ structure St where
   refusedWrites : Nat := 0
   connSessions : Nat := 0
   dist : List (String × Nat) := []
+  /-- shared-memory model of the send-buffer pools (Pool.lean); the pools are process-wide, so
+      heap / free lists / allocator persist over the cases, the Machines do not -/
+  pool : PState := {}
+  /-- implementation buffer number ↔ model buffer id -/
+  bufTab : List (Nat × Nat) := []
+  poolOps : Nat := 0
+  poolReused : Nat := 0
+  poolFresh : Nat := 0
+  poolClears : Nat := 0
+  listenerSessions : Nat := 0
+  listenerFaults : Nat := 0
 
 def mismatch (s : St) (detail : String) : IO St := do
   if s.mismatches < 40 then
@@ -322,6 +335,52 @@ def touchPipe (s : St) (m : Mach) (p : Pipe) : St :=
 def connResStr : ConnRes → String
   | .ok => "ok" | .io => "io" | .hs e => hErrStr e
 
+/-! #### pooled send buffers (Pool.lean) -/
+
+def bufModel (s : St) (x : Nat) : Option Nat := (s.bufTab.find? (·.1 == x)).map (·.2)
+
+/-- the implementation holds buffer `impl` where the model holds `model` -/
+def bindBuf (s : St) (impl model : Option Nat) (what : String) : IO St := do
+  match impl, model with
+  | none, none => return s
+  | some x, some k =>
+    match bufModel s x with
+    | some k' =>
+      if k' == k then return { s with poolReused := s.poolReused + 1 }
+      else
+        let owner := (s.pool.machs.find? fun p => p.2.hb == some k' || p.2.bb == some k').map (·.1)
+        let s ← mismatch s s!"{what}: the pool handed out buffer #{x}, which the model does not have free (model id {k'}, in use by machine {owner}); model allocated {k}"
+        return { s with bufTab := (x, k) :: s.bufTab.filter (·.1 != x) }
+    | none =>
+      if s.bufTab.any (·.2 == k) then
+        let s ← mismatch s s!"{what}: model reuses buffer {k}, implementation holds a buffer never seen (#{x})"
+        return { s with bufTab := (x, k) :: s.bufTab.filter (·.2 != k) }
+      else return { s with bufTab := (x, k) :: s.bufTab, poolFresh := s.poolFresh + 1 }
+  | _, _ => mismatch s s!"{what}: pooled buffer impl={impl} model={model}"
+
+/-- compare the buffers Machine `id` holds (`hb=` / `bb=` of the observation) with the model -/
+def checkPool (s : St) (id : Nat) (obs : List String) (op : String) : IO St := do
+  if (kv? obs "hb").isNone then return s
+  let pm := s.pool.mach id
+  let s ← bindBuf s (kvNat? obs "hb") pm.hb s!"{op} mach={id} header buffer"
+  bindBuf s (kvNat? obs "bb") pm.bb s!"{op} mach={id} body buffer"
+
+/-- replay one sending-side operation on the shared-memory model; what the pools hand out is
+    taken from the observation (a buffer the model knows, else a new one) -/
+def poolStep (s : St) (id : Nat) (op : String) (obs : List String) (mk : Option Nat → Option Nat → POp)
+    (snd : Sender) : IO St := do
+  if (kv? obs "hb").isNone then return s
+  let ch := (kvNat? obs "hb").bind (bufModel s)
+  let cb := (kvNat? obs "bb").bind (bufModel s)
+  let (_, p') := s.pool.step id (mk ch cb)
+  let mut s := { s with pool := p', poolOps := s.poolOps + 1 }
+  s ← checkPool s id obs op
+  -- the value model and the memory model agree on what the Machine has buffered (PoolProps)
+  let v := s.pool.view id
+  if v.hdr.length != snd.hdr.length || v.body.length != snd.body.length || v.cs.nonce != snd.cs.nonce then
+    s ← mismatch s s!"{op} mach={id}: memory model buffers hl={v.hdr.length} bl={v.body.length} sn={v.cs.nonce}, value model hl={snd.hdr.length} bl={snd.body.length} sn={snd.cs.nonce}"
+  return s
+
 /-! #### the step function -/
 
 def step (s : St) (line : String) : IO St := do
@@ -345,7 +404,8 @@ def step (s : St) (line : String) : IO St := do
     chk s "handshakeVersion" handshakeVersion
   | "CASE" :: id :: rest =>
     let s := { s with caseId := id, kind := (kv? rest "kind").getD "", machs := [], pipes := [], pubs := [],
-                       termTab := [], keyTab := [], connSent := [], cases := s.cases + 1 }
+                       termTab := [], keyTab := [], connSent := [], cases := s.cases + 1,
+                       pool := { s.pool with machs := [] } }
     if s.samples < 4 && (s.cases % 9 == 1) then
       IO.println s!"SAMPLE {line}"
       return { s with samples := s.samples + 1 }
@@ -376,6 +436,7 @@ def step (s : St) (line : String) : IO St := do
     let n := (nat? n).getD 0
     let f := (kvNat? rest "from").getD 0
     let s := setMach s { getMach s f with id := n }
+    let s := { s with pool := { s.pool with machs := amSet s.pool.machs n (s.pool.mach f) } }
     return setPipe s { getPipe s f with id := n }
   | "clonepair" :: na :: nb :: _ :: fb :: _ =>
     let na := (nat? na).getD 0
@@ -384,6 +445,7 @@ def step (s : St) (line : String) : IO St := do
     let fb := (nat? fb).getD 0
     let s := setMach s { getMach s fa with id := na, peer := nb }
     let s := setMach s { getMach s fb with id := nb, peer := na }
+    let s := { s with pool := { s.pool with machs := amSet (amSet s.pool.machs na (s.pool.mach fa)) nb (s.pool.mach fb) } }
     let s := setPipe s { getPipe s fa with id := na }
     return setPipe s { getPipe s fb with id := nb }
   ----------------------------------------------------------------- handshake
@@ -422,7 +484,7 @@ def step (s : St) (line : String) : IO St := do
       | .ct t => s ← bindTerm s t (substr hex 100 32) s!"gen3 mach={m.id} tag"
       | .junk => pure ()
       let m := { (m.splitTo snd rcv) with out3 := hex, g3ok := true }
-      return setMach s m
+      return setMach { s with pool := s.pool.install m.id snd } m
     | .error e =>
       let s ← if res0 == hErrStr e then pure s else mismatch s s!"gen3: model={hErrStr e} impl={res0}"
       return setMach s m
@@ -479,6 +541,7 @@ def step (s : St) (line : String) : IO St := do
     match r with
     | .ok (snd, rcv) =>
       m := m.splitTo snd rcv
+      s := { s with pool := s.pool.install m.id snd }
       if res0 == "ok" then
         let want := (hs'.rs.map toString).getD "-"
         if (kv? res "rpub").getD "-" != want then
@@ -565,6 +628,7 @@ def step (s : St) (line : String) : IO St := do
           s ← monitor s "nonce-unique" s!"mach {m.id}: record sealed under a (key, nonce) that is none of this connection's keys with a nonce below {keyRotationInterval} (hk={hk} hn={(kv? res "hn").getD "?"} bk={bk} bn={(kv? res "bn").getD "?"})"
         m := { m with sent := m.sent.push msg, pend := some (len, 0, 0) }
       s ← checkObs s m obs "write"
+      s ← poolStep s m.id "write" obs (fun ch cb => .write msg ch cb) m.snd
       return setMach s m
     | .error e =>
       let model := match e with | .tooLong => "toolong" | .notFlushed => "notflushed"
@@ -573,6 +637,7 @@ def step (s : St) (line : String) : IO St := do
       if res0 == "ok" then
         m := { m with sent := m.sent.push msg, pend := some (len, 0, 0) }
       s ← checkObs s m obs "write"
+      s ← poolStep s m.id "write" obs (fun ch cb => .write msg ch cb) m.snd
       return setMach s m
   | "flush" :: id :: rest =>
     let s := { s with ops := s.ops + 1, flushes := s.flushes + 1 }
@@ -607,6 +672,23 @@ def step (s : St) (line : String) : IO St := do
     | none =>
       if implN != 0 then s ← monitor s "flush-accounting" s!"mach {m.id}: Flush with nothing pending returned {implN}"
     s ← checkObs s m obs "flush"
+    s ← poolStep s m.id "flush" obs (fun _ _ => .flush budget eager) m.snd
+    return setMach s (noteObs m obs)
+  | "clear" :: id :: _ =>
+    -- Conn.ClearPendingSend: whatever is buffered is dropped; if that was (part of) a record the
+    -- byte stream of this direction is no longer a sequence of records
+    let s := { s with ops := s.ops + 1, poolClears := s.poolClears + 1 }
+    let m := getMach s ((nat? id).getD 0)
+    let (_, snd') := m.snd.pstep .clear
+    let dropped := m.snd.hdr.length + m.snd.body.length > 0
+    let mut m := m.withSnd snd'
+    let mut s := s
+    if res0 != "ok" then s ← mismatch s s!"clear mach={m.id}: impl={res0}"
+    if dropped || m.implPend then
+      s := dirty s m.id
+      m := { m with pend := none }
+    s ← checkObs s m obs "clear"
+    s ← poolStep s m.id "clear" obs (fun _ _ => .clear) m.snd
     return setMach s (noteObs m obs)
   | "read" :: id :: rest =>
     let s := { s with ops := s.ops + 1 }
@@ -751,6 +833,62 @@ def step (s : St) (line : String) : IO St := do
       s := setPipe s { id := 2 }
     | none => pure ()
     return s
+  | "lflow" :: id :: rest =>
+    -- one inbound connection of a Listener with several handshakes in flight: the complete
+    -- control flow of doHandshake (Listener.lean) on what this session's environment did
+    let s := { s with ops := s.ops + 1, listenerSessions := s.listenerSessions + 1 }
+    let m := getMach s ((nat? id).getD 0)
+    let peer := getMach s m.peer
+    let dl := (kvNat? rest "dl").getD 0
+    let ban := (kvNat? rest "ban").getD 0
+    let d1 := kv? rest "d1" == some "true"
+    let d3 := kv? rest "d3" == some "true"
+    let a1hex := (kv? rest "a1").getD ""
+    let a3hex := (kv? rest "a3").getD ""
+    let env : LEnv :=
+      { dl1 := dl != 1,
+        rd1 := if d1 then some (parseAct12 s a1hex ((kv? rest "pk1").getD "invalid")) else none,
+        wr2 := true, dl2 := dl != 2,
+        rd3 := if d3 then some (parseAct3 s a3hex) else none,
+        dl3 := dl != 3,
+        accept := fun _ => (ban == 0 || ban == 3, ban == 1 || ban == 3) }
+    let (r, a2) := listenerFlow m.lsKey ((kvNat? rest "e").getD 0) env
+    let (model, mrpub) : String × String := match r with
+      | .done _ y => ("ok", toString y)
+      | .rejected .deadline => ("deadline", "-")
+      | .rejected .io => ("io", "-")
+      | .rejected (.hs e) => (hErrStr e, "-")
+      | .rejected .noRemoteKey => ("noremote", "-")
+      | .rejected .banned => ("banned", "-")
+    let rpub := (kv? res "rpub").getD "-"
+    let res := (kv? res "res").getD "?"
+    let mut s := s
+    let implRpub := if res == "ok" then rpub else "-"
+    if model != res || mrpub != implRpub then
+      s ← mismatch s s!"lflow mach={m.id}: model res={model} rpub={mrpub}, impl res={res} rpub={implRpub}"
+    -- act two went out exactly when the model says so
+    if a2.isSome != (m.out2 != "") then
+      s ← mismatch s s!"lflow mach={m.id}: act two written model={a2.isSome} impl={m.out2 != ""}"
+    let faulty := dl != 0 || ban == 1 || ban == 2 || !d1 || !(d3 || m.out2 == "")
+    if faulty then s := { s with listenerFaults := s.listenerFaults + 1 }
+    if res == "ok" then s := { s with hsOk := s.hsOk + 1 } else s := { s with hsRejected := s.hsRejected + 1 }
+    -- monitor (trace only)
+    if res == "ok" && !(d1 && d3) then
+      s ← monitor s "handshake-auth" s!"listener session {m.id} accepted although act {if d1 then "three" else "one"} was never delivered completely"
+    let right := pubHex s peer.target == pubHex s m.lsKey
+    let unaltered := m.peer != 0 && d1 && d3 && a1hex == peer.out1 && a3hex == peer.out3 && peer.in2 == m.out2 && m.out2 != ""
+    if res == "ok" && !(right && unaltered) then
+      s ← monitor s "handshake-auth" s!"listener session {m.id} accepted although {if right then "the acts were altered in flight" else "the dialled key is not the listener's"}"
+    if res != "ok" && right && unaltered && dl == 0 && (ban == 0 || ban == 3) then
+      s ← monitor s "right-key-rejected" s!"listener session {m.id}: right static key dialled, acts delivered unaltered, no fault on the connection, yet rejected ({res})"
+    return s
+  | "lsema" :: rest =>
+    -- every doHandshake returns its slot of the handshake semaphore (resource bookkeeping, not
+    -- part of the property: correspondence only)
+    let s := { s with ops := s.ops + 1 }
+    if kvNat? rest "cap" != kvNat? res "free" then
+      mismatch s s!"listener semaphore: {(kv? res "free").getD "?"} of {(kv? rest "cap").getD "?"} slots free after all handshakes ended"
+    else return s
   | "cwrite" :: who :: rest =>
     let s := { s with ops := s.ops + 1 }
     let wid := if who == "i" then 1 else 2
@@ -900,6 +1038,12 @@ def main : IO Unit := do
   IO.println s!"STAT encryptions_observed={s.encryptions}"
   IO.println s!"STAT max_key_epoch={s.maxEpoch}"
   IO.println s!"STAT tamper_ops={s.tampers}"
+  IO.println s!"STAT listener_sessions={s.listenerSessions}"
+  IO.println s!"STAT listener_sessions_with_fault={s.listenerFaults}"
+  IO.println s!"STAT pool_ops={s.poolOps}"
+  IO.println s!"STAT pool_buffers_reused={s.poolReused}"
+  IO.println s!"STAT pool_buffers_new={s.poolFresh}"
+  IO.println s!"STAT clear_pending_send={s.poolClears}"
   for (k, v) in s.dist.reverse do
     IO.println s!"STAT dist_{k}={v}"
   IO.println s!"STAT mismatches={s.mismatches}"
